@@ -49,6 +49,9 @@ var c09Forms = []c09Form{
 	}},
 	{"upper-case-then-mention", func(k, a string) string { return "//@" + strings.ToUpper(k) + a + " (see @" + k + ")" }},
 	{"mention-then-keyword-in-word", func(k, a string) string { return "// see @" + k + a + "; x@" + k + a }},
+	// another, unknown @tag first, the keyword right after it
+	{"other-tag-then-keyword", func(k, a string) string { return "// @todo @" + k + a + " once the loader stops patching it" }},
+	{"two-other-tags-then-keyword", func(k, a string) string { return "//@see @since @" + k + a }},
 	// a block comment one of whose LINES looks like an annotation comment (a quoted usage snippet)
 	{"block-with-annotation-line", func(k, a string) string { return "/*\n// @" + k + a + "\n*/" }},
 	{"block-with-indented-annotation-line", func(k, a string) string { return "/* usage:\n\t// @" + k + a + "\n   more prose */" }},
